@@ -1504,6 +1504,33 @@ def r1220(ctx):
                 ctx.bad(rid, c, f"the list of files removed before mdrun (`{short(lst, 50)}`) is computed before {tab}[{key!r}] is entered into the table: a `<name>.{key}` left by a crashed run with the same pid / counter is not deleted, GromacsRunner opens it at once and streams the old run's frames - wrong first frame, length, end point and success flag", construct=f"remove list computed before {tab}[{key!r}] is known")
 
 
+def _expanded_args(g, call, depth=3):
+    """Source text of a call's arguments with locals replaced by the expressions they hold
+    (`pgid = os.getpgid(p.pid); os.killpg(pgid, sig)` reads like the nested form)."""
+    fl = flow_of(g)
+    try:
+        at = fl.cfg.node_of(call)
+    except AnalysisError:
+        return ast.unparse(call)
+    out = []
+
+    def expand(e, at_, d):
+        if isinstance(e, ast.Name) and d > 0:
+            try:
+                e2, at2 = deref(fl, e, at_)
+            except AnalysisError:
+                return ast.unparse(e)
+            if e2 is not e:
+                return expand(e2, at2 if at2 is not None else at_, d - 1)
+        if isinstance(e, ast.Call) and d > 0:
+            return ast.unparse(e.func) + "(" + ", ".join(expand(a, at_, d - 1) for a in e.args) + ")"
+        return ast.unparse(e)
+
+    for a in list(call.args) + [k.value for k in call.keywords]:
+        out.append(expand(a, at, depth))
+    return ", ".join(out)
+
+
 def r1221(ctx):
     """The external MD program is started as the leader of its own session (`preexec_fn=os.setsid`)
     because the configured command may be a wrapper (mpirun, a shell script) whose child does the
@@ -1540,7 +1567,7 @@ def r1221(ctx):
                     elif dotted(c.func) == "os.kill" and c.args and any(ast.unparse(c.args[0]).startswith(p + ".") for p in procs):
                         n += 1
                         ctx.bad(rid, c, f"{getattr(g, '_fq', g.name)} signals only the direct child (`{short(c, 40)}`) of a program started in its own session", construct=f"{g.name}: os.kill on a session leader")
-                    elif dotted(c.func) == "os.killpg" and any(p in ast.unparse(c) for p in procs):
+                    elif dotted(c.func) == "os.killpg" and any(p in _expanded_args(g, c) for p in procs):
                         n += 1
                         ctx.ok(rid, c, f"{getattr(g, '_fq', g.name)}: the external program is stopped through its process group")
                     elif last_name(c) == "terminate_process" and c.args and ast.unparse(c.args[0]) in procs:
